@@ -109,12 +109,9 @@ func symID(ids []string) string {
 }
 
 // H_CacheHistory: bootstrap with 0..2 resources, blocked reads before bootstrap,
-// then every history of <=2 (quick) / <=3 (thorough) put/remove events.
+// then every history of <=2 put/remove events.
 func H_CacheHistory() {
-	steps := 2
-	if verif.Tier() == "thorough" {
-		steps = 3
-	}
+	steps := 2 // the thorough tier deepens the delay bound, not the history (3 events exceed 10^6 paths)
 	ctx := context.Background()
 	c := cache.NewResourceCache([]options.CachedResource{{Namespace: tres.NS, Type: tres.TypeA}})
 	ids := []string{verif.Atom("idA"), verif.Atom("idB"), verif.Atom("idC")}
